@@ -56,6 +56,12 @@ type Assembly struct {
 	MemCAObj  *memca.CertificateAuthority // memca: the in-memory authority (persists across commands)
 	MemStore  *doubles.MemStore           // gcsca-mem
 
+	// LongLived models a long-running process that keeps ONE gcsca authority value (and its manifest
+	// cache) across commands instead of reloading it per command like the CLI does.
+	LongLived bool
+	llCA      *gcsca.CertificateAuthority
+	llStore   *doubles.FStore
+
 	// per-command state (set by Context)
 	F      *doubles.FCtl
 	signer *nonprod.Signer
@@ -138,9 +144,17 @@ func (a *Assembly) Context(f *doubles.FCtl, o Opts) (context.Context, error) {
 	}
 	a.signer = s
 	var ca styp.CertificateAuthority
-	if a.CA == MemCA {
+	switch {
+	case a.CA == MemCA:
 		ca = a.MemCAObj
-	} else {
+	case a.LongLived:
+		if a.llCA == nil {
+			a.llStore = &doubles.FStore{Inner: a.rawStore(), F: f}
+			a.llCA = &gcsca.CertificateAuthority{Storage: a.llStore, PrivateBucket: Bucket, RootPath: RootPath, SigningCertDirInGCS: CertDir}
+		}
+		a.llStore.F = f
+		ca = a.llCA
+	default:
 		ca = &gcsca.CertificateAuthority{Storage: &doubles.FStore{Inner: a.rawStore(), F: f}, PrivateBucket: Bucket, RootPath: RootPath, SigningCertDirInGCS: CertDir}
 	}
 	kc := &keys.Context{CA: &doubles.FCA{Inner: ca, F: f}, Manager: &doubles.FManager{Inner: mgr, F: f}, Signer: &doubles.FSigner{Inner: s, F: f}, Random: crand.Reader}
